@@ -1,9 +1,9 @@
 (* C16 -- source facts.  The machines and monitors this property rests on were written against, and validated on,
    these definitions of /repo; tools/srcfacts.py regenerates their normal-form digests on every run (coq/Gen/Src_*.v).
-   Statements only. *)
+   Statements only.  Written by `tools/srcfacts.py --props` from PROP_MODULES. *)
 From Coq Require Import List String.
-From ME Require Import Model.SrcExpected Gen.Src_map Gen.Src_flat_map Gen.Src_common Gen.Src_fapply Gen.Src_fmap Gen.Src_fbase Gen.Src_fcheck
-  Proofs.Src_ok_map Proofs.Src_ok_flat_map Proofs.Src_ok_common Proofs.Src_ok_fapply Proofs.Src_ok_fmap Proofs.Src_ok_fbase Proofs.Src_ok_fcheck.
+From ME Require Import Model.SrcExpected Gen.Src_map Gen.Src_flat_map Gen.Src_common Gen.Src_fapply Gen.Src_fmap Gen.Src_fbase Gen.Src_fcheck Gen.Src_futures_init Gen.Src_logwrap Gen.Src_metrics_null
+  Proofs.Src_ok_map Proofs.Src_ok_flat_map Proofs.Src_ok_common Proofs.Src_ok_fapply Proofs.Src_ok_fmap Proofs.Src_ok_fbase Proofs.Src_ok_fcheck Proofs.Src_ok_futures_init Proofs.Src_ok_logwrap Proofs.Src_ok_metrics_null.
 
 (* more_executors/_impl/map.py *)
 Theorem c16_source_map : Src_map.facts = expected_map.
@@ -26,6 +26,15 @@ Proof. exact src_fbase_ok. Qed.
 (* more_executors/_impl/futures/check.py *)
 Theorem c16_source_fcheck : Src_fcheck.facts = expected_fcheck.
 Proof. exact src_fcheck_ok. Qed.
+(* more_executors/_impl/futures/__init__.py *)
+Theorem c16_source_futures_init : Src_futures_init.facts = expected_futures_init.
+Proof. exact src_futures_init_ok. Qed.
+(* more_executors/_impl/logwrap.py *)
+Theorem c16_source_logwrap : Src_logwrap.facts = expected_logwrap.
+Proof. exact src_logwrap_ok. Qed.
+(* more_executors/_impl/metrics/null.py *)
+Theorem c16_source_metrics_null : Src_metrics_null.facts = expected_metrics_null.
+Proof. exact src_metrics_null_ok. Qed.
 
 Print Assumptions c16_source_map.
 Print Assumptions c16_source_flat_map.
@@ -34,3 +43,6 @@ Print Assumptions c16_source_fapply.
 Print Assumptions c16_source_fmap.
 Print Assumptions c16_source_fbase.
 Print Assumptions c16_source_fcheck.
+Print Assumptions c16_source_futures_init.
+Print Assumptions c16_source_logwrap.
+Print Assumptions c16_source_metrics_null.
